@@ -17,7 +17,8 @@ META = {
             "distinct = distinct index tuples",
     "bounds": {"quick": "1 qubit: 10 pure + 101 mixed (10 of them weakly mixed, purity within 1e-3 of 1), all ordered pairs and all triples of a 30-element sub-family; 2 qubits: 64 pure + 136 mixed, all 40 000 ordered pairs; "
                         "partial trace: all stabilizer states n<=3 + 30 mixed x every proper kept subset x 4 entry points; Infidelity/TraceDistance on all 3600 pairs of S_2 x 4 representation combinations",
-               "thorough": "2-qubit family of 600"},
+               "thorough": "2-qubit family of 600 (360 000 ordered pairs); 3 qubits: 120 stabilizer + 4 non-stabilizer pure states + 276 mixtures (weights 1/2, 1/4, 3/4, 0.9999), all 160 000 ordered pairs; "
+                           "partial trace additionally on every 17th of the 36 720 four-qubit stabilizer states x all 14 proper kept subsets; Infidelity/TraceDistance additionally on 120 targets x all 1080 states of S_3 x 4 representation combinations"},
     "assumptions": ["continuous inputs are represented by this finite family (values outside it are not covered)", "tolerance 1e-9 on fidelities and distances"],
 }
 TOL = 1e-9
@@ -64,6 +65,38 @@ def family2(size):
     return mats, names
 
 
+def family3(size):
+    st = spaces.stabilizer_states(3)
+    pure = [sv.flat(st[i].vector()) for i in range(0, len(st), 9)]
+    a, b = ket(np.pi / 4, 0), ket(1.0, 2.0)
+    w3 = np.zeros(8, dtype=complex); w3[[1, 2, 4]] = 1 / np.sqrt(3)
+    pure += [np.kron(np.kron(a, b), a), np.kron(b, np.kron(a, a)), w3, (np.kron(a, np.kron(a, a)) + np.kron(b, np.kron(b, b))) / np.linalg.norm(np.kron(a, np.kron(a, a)) + np.kron(b, np.kron(b, b)))]
+    mats = [np.outer(v, v.conj()) for v in pure]
+    names = ["pure%d" % i for i in range(len(pure))]
+    k = 0
+    n = len(pure)
+    while len(mats) < size:
+        i = k % n
+        j = (11 * k + 5 + k // n) % n
+        w = (0.5, 0.25, 0.75, 0.9999)[(k // n) % 4]
+        if i != j:
+            mats.append(w * mats[i] + (1 - w) * mats[j]); names.append("mix(%d,%d,%g)" % (i, j, w))
+        k += 1
+    return mats, names
+
+
+SIZE3 = 400
+
+
+def family(q, size=None):
+    return family1() if q == 1 else family2(size or 600) if q == 2 else family3(size or SIZE3)
+
+
+def prepare(tier):
+    if tier != "quick":
+        spaces.stabilizer_states(4)  # built once in the parent; the forked workers share it
+
+
 def shards(tier):
     out = []
     m1, _ = family1()
@@ -72,6 +105,14 @@ def shards(tier):
     size2 = 200 if tier == "quick" else 600
     for a in range(0, size2, 5 if tier == "quick" else 10):
         out.append({"kind": "pairs", "q": 2, "lo": a, "hi": min(size2, a + (5 if tier == "quick" else 10)), "size": size2})
+    if tier != "quick":
+        for a in range(0, SIZE3, 10):
+            out.append({"kind": "pairs", "q": 3, "lo": a, "hi": min(SIZE3, a + 10), "size": SIZE3})
+        for a in range(0, 1080, 27):
+            out.append({"kind": "metric", "n": 3, "lo": a, "hi": a + 27, "istep": 9})
+        n4 = len(spaces.stabilizer_states(4))
+        for a in range(0, n4, 17 * 60):
+            out.append({"kind": "ptrace", "n": 4, "lo": a, "hi": min(n4, a + 17 * 60), "step": 17})
     out.append({"kind": "triples"})
     for n in (2, 3):
         ns = len(spaces.stabilizer_states(n))
@@ -129,7 +170,7 @@ def run_shard(shard, tier, acc):
     import graphiq.backends.density_matrix.functions as dmf
     kind = shard["kind"]
     if kind == "pairs":
-        mats, names = family1() if shard["q"] == 1 else family2(shard["size"])
+        mats, names = family(shard["q"], shard.get("size"))
         vals = {}
         for i in range(shard["lo"], shard["hi"]):
             for j in range(len(mats)):
@@ -170,7 +211,7 @@ def run_shard(shard, tier, acc):
         if kind == "ptrace":
             n = shard["n"]
             st = spaces.stabilizer_states(n)
-            for i in range(shard["lo"], shard["hi"]):
+            for i in range(shard["lo"], shard["hi"], shard.get("step", 1)):
                 items.append((n, sv.dm(st[i].vector()), {"n": n, "state": st[i].strings()}))
         else:
             for n in (2, 3):
@@ -182,77 +223,93 @@ def run_shard(shard, tier, acc):
         for n, rho, desc in items:
             for r in range(1, n):
                 for keep in itertools.combinations(range(n), r):
-                    want = sv.partial_trace(rho, n, list(keep))
-                    case = dict(desc, keep=list(keep))
-                    calls = {
-                        "dmf.partial_trace": lambda: dmf.partial_trace(rho.copy(), list(keep), [2] * n),
-                        "DensityMatrix.partial_trace": lambda: _dm_pt(DensityMatrix(rho.copy()), keep, n),
-                        "QuantumState.partial_trace": lambda: _qs_pt(QuantumState(rho.copy(), rep_type="dm"), keep, n),
-                    }
-                    if r == n - 1:
-                        drop = [q for q in range(n) if q not in keep][0]
-                        calls["dmf.trace_out_qubit"] = lambda: dmf.trace_out_qubit(rho.copy(), drop)
-                    for site, fn in calls.items():
-                        acc.evaluations += 1
-                        acc.transitions += 1
-                        try:
-                            got = np.asarray(fn())
-                        except Exception as e:
-                            acc.violation("ptrace", site, "raises-" + type(e).__name__, case, "reduced state", repr(e)[:160])
-                            continue
-                        if got.shape != want.shape or np.max(np.abs(got - want)) > 1e-9:
-                            acc.violation("ptrace", site, "differs-from-reduced-state", case, np.round(want, 6).tolist(),
-                                          np.round(got, 6).tolist() if got.size <= 64 else str(got.shape))
-                        acc.validated += 1
-                    acc.nontriv((core.jdump(desc), keep))
+                    case = pt_case(acc, n, rho, desc, keep)
             acc.state(core.jdump(desc))
         acc.sample(case)
     elif kind == "metric":
-        from graphiq.state import QuantumState
-        from graphiq.metrics import Infidelity, TraceDistance
-        st = spaces.stabilizer_states(2)
-        for i in range(shard["lo"], shard["hi"]):
-            for j in range(len(st)):
-                va, vb = st[i].vector(), st[j].vector()
-                want = 1 - sv.overlap2(va, vb)
-                vals = {}
-                for ta, tb in itertools.product(("dm", "s"), repeat=2):
-                    case = {"target": st[i].strings(), "state": st[j].strings(), "target_rep": ta, "state_rep": tb}
-                    acc.evaluations += 1
-                    acc.transitions += 1
-                    tgt = QuantumState(sv.dm(va), rep_type="dm") if ta == "dm" else QuantumState(gq.group_to_clifford_tableau(st[i]), rep_type="s")
-                    sta = QuantumState(sv.dm(vb), rep_type="dm") if tb == "dm" else QuantumState(gq.group_to_clifford_tableau(st[j]), rep_type="s")
-                    try:
-                        # one metric object is reused and its target re-pointed, as a sweep over targets would do
-                        met = _INF.get("m")
-                        if met is None:
-                            met = _INF["m"] = Infidelity(tgt)
-                        met.target = tgt
-                        v = float(met.evaluate(sta, None))
-                        vals[(ta, tb)] = v
-                        okt = gq.tableau_group(tgt.rep_data.data).same_state(st[i]) if (tgt.rep_type == "s" and type(tgt.rep_data).__name__ == "Stabilizer") else (
-                            tgt.rep_type == "dm" and np.max(np.abs(np.asarray(tgt.rep_data.data) - sv.dm(va))) < 1e-9)
-                        oks = gq.tableau_group(sta.rep_data.data).same_state(st[j]) if (sta.rep_type == "s" and type(sta.rep_data).__name__ == "Stabilizer") else (
-                            sta.rep_type == "dm" and np.max(np.abs(np.asarray(sta.rep_data.data) - sv.dm(vb))) < 1e-9)
-                        if ta != tgt.rep_type or tb != sta.rep_type or not okt or not oks:
-                            acc.violation("metric", "Infidelity.evaluate", "target-or-state-object-changed-by-evaluation", case, "unchanged", {"target_ok": bool(okt), "state_ok": bool(oks)})
-                        if abs(v - want) > 1e-7:
-                            acc.violation("metric", "Infidelity.evaluate", "differs-from-1-minus-overlap", case, want, v)
-                    except Exception as e:
-                        acc.violation("metric", "Infidelity.evaluate", "raises-%s" % type(e).__name__, case, want, repr(e)[:160])
-                    if ta == "dm":
-                        try:
-                            t = float(TraceDistance(tgt).evaluate(sta, None))
-                            wt = sv.trace_distance(sv.dm(va), sv.dm(vb))
-                            if abs(t - wt) > 1e-7:
-                                acc.violation("metric", "TraceDistance.evaluate", "differs-from-half-trace-norm", case, wt, t)
-                        except Exception as e:
-                            acc.violation("metric", "TraceDistance.evaluate", "raises-%s" % type(e).__name__, case, "a number", repr(e)[:160])
-                    acc.validated += 1
-                if len(set(round(v, 7) for v in vals.values())) > 1:
-                    acc.violation("metric", "Infidelity.evaluate", "value-depends-on-representation", {"target": st[i].strings(), "state": st[j].strings()},
-                                  want, {"%s/%s" % k: v for k, v in vals.items()})
-                acc.nontriv(("metric", i, j))
+        st = spaces.stabilizer_states(shard.get("n", 2))
+        _INF.clear()  # one metric object per shard: the history a case depends on is the shard's own prefix
+        for i in range(shard["lo"], shard["hi"], shard.get("istep", 1)):
+            for j in range(0, len(st), shard.get("step", 1)):
+                metric_case(acc, st[i], st[j], {"n": shard.get("n", 2), "i0": shard["lo"], "istep": shard.get("istep", 1), "step": shard.get("step", 1), "i": i, "j": j})
+                acc.nontriv(("metric", shard.get("n", 2), i, j))
+
+
+def pt_case(acc, n, rho, desc, keep):
+    import graphiq.backends.density_matrix.functions as dmf
+    from graphiq.backends.density_matrix.state import DensityMatrix
+    from graphiq.state import QuantumState
+    want = sv.partial_trace(rho, n, list(keep))
+    case = dict(desc, keep=list(keep))
+    calls = {
+        "dmf.partial_trace": lambda: dmf.partial_trace(rho.copy(), list(keep), [2] * n),
+        "DensityMatrix.partial_trace": lambda: _dm_pt(DensityMatrix(rho.copy()), keep, n),
+        "QuantumState.partial_trace": lambda: _qs_pt(QuantumState(rho.copy(), rep_type="dm"), keep, n),
+    }
+    if len(keep) == n - 1:
+        drop = [q for q in range(n) if q not in keep][0]
+        calls["dmf.trace_out_qubit"] = lambda: dmf.trace_out_qubit(rho.copy(), drop)
+    for site, fn in calls.items():
+        acc.evaluations += 1
+        acc.transitions += 1
+        try:
+            got = np.asarray(fn())
+        except Exception as e:
+            acc.violation("ptrace", site, "raises-" + type(e).__name__, case, "reduced state", repr(e)[:160])
+            continue
+        if got.shape != want.shape or np.max(np.abs(got - want)) > 1e-9:
+            acc.violation("ptrace", site, "differs-from-reduced-state", case, np.round(want, 6).tolist(),
+                          np.round(got, 6).tolist() if got.size <= 64 else str(got.shape))
+        acc.validated += 1
+    acc.nontriv((core.jdump(desc), tuple(keep)))
+    return case
+
+
+def metric_case(acc, gi, gj, hist=None):
+    """hist: the metric object has been reused since target index i0 of S_n (replay re-runs that prefix)."""
+    from graphiq.state import QuantumState
+    from graphiq.metrics import Infidelity, TraceDistance
+    va, vb = gi.vector(), gj.vector()
+    want = 1 - sv.overlap2(va, vb)
+    vals = {}
+    for ta, tb in itertools.product(("dm", "s"), repeat=2):
+        case = {"target": gi.strings(), "state": gj.strings(), "target_rep": ta, "state_rep": tb}
+        if hist:
+            case["metric_reused_since"] = hist
+        acc.evaluations += 1
+        acc.transitions += 1
+        tgt = QuantumState(sv.dm(va), rep_type="dm") if ta == "dm" else QuantumState(gq.group_to_clifford_tableau(gi), rep_type="s")
+        sta = QuantumState(sv.dm(vb), rep_type="dm") if tb == "dm" else QuantumState(gq.group_to_clifford_tableau(gj), rep_type="s")
+        try:
+            # one metric object is reused and its target re-pointed, as a sweep over targets would do
+            met = _INF.get("m")
+            if met is None:
+                met = _INF["m"] = Infidelity(tgt)
+            met.target = tgt
+            v = float(met.evaluate(sta, None))
+            vals[(ta, tb)] = v
+            okt = gq.tableau_group(tgt.rep_data.data).same_state(gi) if (tgt.rep_type == "s" and type(tgt.rep_data).__name__ == "Stabilizer") else (
+                tgt.rep_type == "dm" and np.max(np.abs(np.asarray(tgt.rep_data.data) - sv.dm(va))) < 1e-9)
+            oks = gq.tableau_group(sta.rep_data.data).same_state(gj) if (sta.rep_type == "s" and type(sta.rep_data).__name__ == "Stabilizer") else (
+                sta.rep_type == "dm" and np.max(np.abs(np.asarray(sta.rep_data.data) - sv.dm(vb))) < 1e-9)
+            if ta != tgt.rep_type or tb != sta.rep_type or not okt or not oks:
+                acc.violation("metric", "Infidelity.evaluate", "target-or-state-object-changed-by-evaluation", case, "unchanged", {"target_ok": bool(okt), "state_ok": bool(oks)})
+            if abs(v - want) > 1e-7:
+                acc.violation("metric", "Infidelity.evaluate", "differs-from-1-minus-overlap", case, want, v)
+        except Exception as e:
+            acc.violation("metric", "Infidelity.evaluate", "raises-%s" % type(e).__name__, case, want, repr(e)[:160])
+        if ta == "dm":
+            try:
+                t = float(TraceDistance(tgt).evaluate(sta, None))
+                wt = sv.trace_distance(sv.dm(va), sv.dm(vb))
+                if abs(t - wt) > 1e-7:
+                    acc.violation("metric", "TraceDistance.evaluate", "differs-from-half-trace-norm", case, wt, t)
+            except Exception as e:
+                acc.violation("metric", "TraceDistance.evaluate", "raises-%s" % type(e).__name__, case, "a number", repr(e)[:160])
+        acc.validated += 1
+    if len(set(round(v, 7) for v in vals.values())) > 1:
+        acc.violation("metric", "Infidelity.evaluate", "value-depends-on-representation", dict({"target": gi.strings(), "state": gj.strings()}, **({"metric_reused_since": hist} if hist else {})),
+                      want, {"%s/%s" % k: v for k, v in vals.items()})
 
 
 def _dm_pt(d, keep, n):
@@ -265,8 +322,54 @@ def _qs_pt(q, keep, n):
     return q.rep_data.data
 
 
+def _find_state(strings):
+    n = len(strings)
+    for g in spaces.stabilizer_states(n):
+        if g.strings() == list(strings):
+            return g
+    raise core.HarnessError("no stabilizer state with generators %r" % (strings,))
+
+
 def replay_case(case, acc):
-    raise core.HarnessError("C17 cases name family members; re-run ./check C17 quick")
+    if "rho" in case:
+        mats, names = family(case["qubits"])
+        i, j = names.index(case["rho"]), names.index(case["sigma"])
+        eq = np.allclose(mats[i], mats[j], atol=1e-12)
+        r = check_pair(acc, mats[i], mats[j], case, eq)
+        r2 = check_pair(acc, mats[j], mats[i], {"qubits": case["qubits"], "rho": names[j], "sigma": names[i]}, eq)
+        if r[0] is not None and r2[0] is not None and abs(r[0] - r2[0]) > 1e-7:
+            acc.violation("fidelity", "dmf.fidelity", "not-symmetric", case, r[0], r2[0])
+        if r[1] is not None and r2[1] is not None and abs(r[1] - r2[1]) > 1e-7:
+            acc.violation("distance", "dmf.trace_distance", "not-symmetric", case, r[1], r2[1])
+    elif "a" in case and "c" in case:
+        import graphiq.backends.density_matrix.functions as dmf
+        mats, names = family1()
+        i, j, k = (names.index(case[x]) for x in "abc")
+        t = lambda x, y: float(dmf.trace_distance(mats[x].copy(), mats[y].copy()))
+        if t(i, k) > t(i, j) + t(j, k) + 1e-7:
+            acc.violation("distance", "dmf.trace_distance", "triangle-inequality-violated", case, t(i, j) + t(j, k), t(i, k))
+    elif "keep" in case:
+        n = case["n"]
+        if "state" in case:
+            rho, desc = sv.dm(_find_state(case["state"]).vector()), {"n": n, "state": case["state"]}
+        else:
+            a, b, w = case["mix"]
+            rho, desc = w * sv.dm(_find_state(a).vector()) + (1 - w) * sv.dm(_find_state(b).vector()), {"n": n, "mix": case["mix"]}
+        pt_case(acc, n, rho, desc, tuple(case["keep"]))
+    elif "target" in case:
+        _INF.clear()
+        h = case.get("metric_reused_since")
+        if h:
+            st = spaces.stabilizer_states(h["n"])
+            for i in range(h["i0"], h["i"] + 1, h["istep"]):
+                for j in range(0, len(st), h["step"]):
+                    if i == h["i"] and j > h["j"]:
+                        break
+                    metric_case(acc, st[i], st[j], dict(h, i=i, j=j))
+        else:
+            metric_case(acc, _find_state(case["target"]), _find_state(case["state"]))
+    else:
+        raise core.HarnessError("unrecognised C17 case")
 
 
 def _neg(strings):
